@@ -331,12 +331,46 @@ func runSessionWorld(rc *RunCtx) *Outcome {
 	return o
 }
 
-// runServeHTTP checks Server.ServeHTTP against a recording Provider.
+// runServeHTTP checks Server.ServeHTTP against a recording Provider: one to
+// three requests are served by the same Server, one after the other (state
+// carried from one request to the next is part of what is checked).
 func runServeHTTP(o *Outcome, ch *Chooser, logf func(string, ...any)) {
+	prov := &recProvider{}
+	srv := &sse.Server{Provider: prov}
+	// per-request plan consulted by the server's callbacks
+	var (
+		onSession    int
+		sessTopics   []string
+		rejectWrites bool
+	)
+	srv.OnSession = func(w http.ResponseWriter, r *http.Request) ([]string, bool) {
+		switch onSession {
+		case 1:
+			return sessTopics, true
+		case 2:
+			return nil, true
+		case 3:
+			if rejectWrites {
+				w.WriteHeader(http.StatusForbidden)
+				_, _ = w.Write([]byte("forbidden"))
+			}
+			return []string{"ignored"}, false
+		}
+		return nil, true
+	}
+	if ch.Chance(1, 3, "server without OnSession") {
+		srv.OnSession = nil
+	}
+	for reqN := 0; reqN < 3 && (reqN == 0 || ch.Chance(1, 2, "another request")) && len(o.Violations) == 0; reqN++ {
+		serveOne(o, ch, logf, srv, prov, reqN, &onSession, &sessTopics, &rejectWrites)
+	}
+}
+
+func serveOne(o *Outcome, ch *Chooser, logf func(string, ...any), srv *sse.Server, prov *recProvider, reqN int, onSession *int, sessTopics *[]string, rejectWritesP *bool) {
 	shape := ch.Intn(len(rwShapes), "writer shape")
 	core := &rwCore{header: http.Header{}, failAt: -1}
 	rw, _, flushable := buildRW(core, shape)
-	logf("ServeHTTP writer shape: %s", rwShapes[shape])
+	logf("request %d: ServeHTTP writer shape: %s", reqN+1, rwShapes[shape])
 	req, _ := http.NewRequest(http.MethodGet, "http://sim.invalid/", nil)
 	// Last-Event-ID header
 	var wantID sse.EventID
@@ -362,33 +396,36 @@ func runServeHTTP(o *Outcome, ch *Chooser, logf func(string, ...any)) {
 		wantID = sse.ID("first")
 		logf("Last-Event-ID two values")
 	}
-	prov := &recProvider{}
-	srv := &sse.Server{Provider: prov}
 	wantTopics := []string{sse.DefaultTopic}
 	reject, rejectWrites := false, false
-	switch ch.Weighted([]int{3, 3, 2, 2}, "OnSession") {
-	case 0:
-		logf("OnSession nil")
-	case 1:
-		t := genTopics(ch, "session")
-		wantTopics = t
-		srv.OnSession = func(w http.ResponseWriter, r *http.Request) ([]string, bool) { return t, true }
-		logf("OnSession topics %s", fmtTopics(t))
-	case 2:
-		srv.OnSession = func(w http.ResponseWriter, r *http.Request) ([]string, bool) { return nil, true }
-		logf("OnSession no topics")
-	case 3:
-		reject = true
-		rejectWrites = ch.Chance(1, 2, "rejection writes a response")
-		srv.OnSession = func(w http.ResponseWriter, r *http.Request) ([]string, bool) {
-			if rejectWrites {
-				w.WriteHeader(http.StatusForbidden)
-				_, _ = w.Write([]byte("forbidden"))
-			}
-			return []string{"ignored"}, false
+	*onSession = 0
+	if srv.OnSession != nil {
+		switch ch.Weighted([]int{3, 3, 2, 2}, "OnSession") {
+		case 0:
+			*onSession = 2
+			logf("OnSession no topics")
+		case 1:
+			t := genTopics(ch, "session")
+			wantTopics = t
+			*onSession = 1
+			*sessTopics = t
+			logf("OnSession topics %s", fmtTopics(t))
+		case 2:
+			*onSession = 2
+			logf("OnSession no topics")
+		case 3:
+			reject = true
+			rejectWrites = ch.Chance(1, 2, "rejection writes a response")
+			*onSession = 3
+			*rejectWritesP = rejectWrites
+			logf("OnSession rejects (writes=%v)", rejectWrites)
 		}
-		logf("OnSession rejects (writes=%v)", rejectWrites)
+	} else {
+		logf("OnSession nil")
 	}
+	prov.subs = nil
+	prov.subErr = nil
+	prov.during = nil
 	subFails := ch.Chance(1, 4, "Subscribe fails")
 	if subFails {
 		prov.subErr = newInjected("provider refuses")
@@ -409,6 +446,9 @@ func runServeHTTP(o *Outcome, ch *Chooser, logf func(string, ...any)) {
 	srv.ServeHTTP(rw, req)
 	o.Nontrivial = true
 	o.fault("ServeHTTP scenario")
+	if reqN > 0 {
+		o.probe("second or third request on the same server")
+	}
 
 	body := func() []byte {
 		var b []byte
@@ -419,62 +459,60 @@ func runServeHTTP(o *Outcome, ch *Chooser, logf func(string, ...any)) {
 		}
 		return b
 	}
-	desc := strings.Join(logLines(logf), "; ")
-	_ = desc
+	pfx := fmt.Sprintf("request %d: ", reqN+1)
 	switch {
 	case !flushable:
 		if len(prov.subs) != 0 {
-			o.violate("C16", "unsupported-writer", "a writer without flush support was subscribed")
+			o.violate("C16", "unsupported-writer", pfx+"a writer without flush support was subscribed")
 		}
 		if core.status != http.StatusInternalServerError || len(body()) == 0 {
-			o.violate("C16", "unsupported-writer", "writer without flush support: status %d body %q, want 500 with a message", core.status, body())
+			o.violate("C16", "unsupported-writer", pfx+"writer without flush support: status %d body %q, want 500 with a message", core.status, body())
 		}
 		o.probe("writer that cannot flush")
 	case reject:
 		if len(prov.subs) != 0 {
-			o.violate("C16", "rejected-session", "OnSession rejected the request but the provider was subscribed")
+			o.violate("C16", "rejected-session", pfx+"OnSession rejected the request but the provider was subscribed")
 		}
 		want := ""
 		if rejectWrites {
 			want = "forbidden"
 		}
 		if string(body()) != want || (rejectWrites && core.status != http.StatusForbidden) || (!rejectWrites && core.status != 0) {
-			o.violate("C16", "rejected-session", "OnSession rejected the request (wrote %q): response has status %d body %q - go-sse must write nothing of its own", want, core.status, body())
+			o.violate("C16", "rejected-session", pfx+"OnSession rejected the request (wrote %q): response has status %d body %q - go-sse must write nothing of its own", want, core.status, body())
 		}
 		o.probe("rejected session")
 	default:
 		if len(prov.subs) != 1 {
-			o.violate("C16", "subscription", "provider was subscribed %d times", len(prov.subs))
+			o.violate("C16", "subscription", pfx+"provider was subscribed %d times", len(prov.subs))
 			return
 		}
 		sub := prov.subs[0]
 		if sub.LastEventID != wantID {
-			o.violate("C16", "last-event-id", "provider got LastEventID %q (set=%v), want %q (set=%v)", sub.LastEventID.String(), sub.LastEventID.IsSet(), wantID.String(), wantID.IsSet())
+			o.violate("C16", "last-event-id", pfx+"provider got LastEventID %q (set=%v), want %q (set=%v)", sub.LastEventID.String(), sub.LastEventID.IsSet(), wantID.String(), wantID.IsSet())
 		}
 		if strings.Join(sub.Topics, "\x00") != strings.Join(wantTopics, "\x00") {
-			o.violate("C16", "topics", "provider got topics %s, want %s", fmtTopics(sub.Topics), fmtTopics(wantTopics))
+			o.violate("C16", "topics", pfx+"provider got topics %s, want %s", fmtTopics(sub.Topics), fmtTopics(wantTopics))
 		}
 		if _, ok := sub.Client.(*sse.Session); !ok {
-			o.violate("C16", "subscription", "provider got a %T as client, want the session", sub.Client)
+			o.violate("C16", "subscription", pfx+"provider got a %T as client, want the session", sub.Client)
 		}
 		if subFails {
 			if core.status != http.StatusInternalServerError || !strings.Contains(string(body()), prov.subErr.Error()) {
-				o.violate("C16", "subscribe-error", "Subscribe failed before anything was sent: status %d body %q, want 500 with the error message", core.status, body())
+				o.violate("C16", "subscribe-error", pfx+"Subscribe failed before anything was sent: status %d body %q, want 500 with the error message", core.status, body())
 			}
 			o.probe("Subscribe error before anything was sent")
 		} else if sent != nil {
 			enc, _ := sent.MarshalText()
 			if !bytes.Equal(body(), enc) {
-				o.violate("C16", "body", "provider sent one message: body %q, want %q", body(), enc)
+				o.violate("C16", "body", pfx+"provider sent one message: body %q, want %q", body(), enc)
 			}
 			o.probe("message sent through the session")
 		} else if len(body()) != 0 || core.status != 0 {
-			o.violate("C16", "body", "nothing was sent but the response has status %d body %q", core.status, body())
+			o.violate("C16", "body", pfx+"nothing was sent but the response has status %d body %q", core.status, body())
 		}
 	}
 }
 
-func logLines(func(string, ...any)) []string { return nil }
 
 func init() {
 	register(&World{
@@ -484,7 +522,7 @@ func init() {
 		Real:        []string{"sse.Upgrade, sse.Session (Send, Flush, doUpgrade), getResponseWriter", "sse.Server.ServeHTTP, getSubscription", "sse.Message.WriteTo"},
 		Stub:        []string{"recording, fault-injecting http.ResponseWriter of a chosen shape", "recording Provider"},
 		Assumptions: []string{"single caller; the simulator dimension is the failing writer only (stated in DESIGN.md)", "'set only once' is observed as: the header holds exactly text/event-stream at every call after the stream started"},
-		MustProbes:  []string{"fail points enumerated", "writer that cannot flush", "rejected session", "Subscribe error before anything was sent", "message sent through the session"},
+		MustProbes:  []string{"fail points enumerated", "writer that cannot flush", "rejected session", "Subscribe error before anything was sent", "message sent through the session", "second or third request on the same server"},
 		Run:         runSessionWorld,
 	}, "C16")
 }
